@@ -203,6 +203,8 @@ def _q7d(sa, sb, fA, fB, fC, fD, now):
         if abstract["B"] in ("running", "done", "failed") and abstract["A"] != "done" and "A" in [nm for nm in ids1]:
             return q.SKIP
         for nm in ids1:
+            if nm not in ("A", "B"):
+                abstract[nm] = "pending"          # other jobs of invocation 1 simply stay queued
             abst.set_state(w, ids1[nm], abstract[nm])
             if abstract[nm] == "done":
                 w.file(OUT[NAMES.index(nm)], fin[NAMES.index(nm)])
